@@ -1,5 +1,5 @@
 (* Theorems about the SHARED REFERENCE models (the mathematical objects libpoly's results are compared with).
-   Statements only; proofs in ScalarProofs.v, UPolySpec.v, RefAlgSpec.v.  The per-property files
+   Statements only; proofs in ScalarProofs.v, UPolySpec.v, RefAlgSpec.v, RefAlgLoops.v, RefAlgOps.v.  The per-property files
    (Properties_C01 .. C20) contain further theorems about the reference functions they use
    (MPolySpec.v for MPoly, RootIsoProofs.v for the Sturm count, SylvesterProofs.v for resultants, ...). *)
 From Coq Require Import ZArith.
@@ -8,7 +8,7 @@ Set Warnings "-notation-overridden,-ambiguous-paths".
 From mathcomp Require Import all_ssreflect all_algebra all_real_closed.
 From mathcomp Require Import ssrZ.
 Set Warnings "notation-overridden,ambiguous-paths".
-From LP Require Import UPolySpec RefAlgSpec.
+From LP Require Import UPolySpec RefAlgSpec RefAlgLoops RefAlgOps.
 Import GRing.Theory Num.Theory.
 Local Open Scope ring_scope.
 
@@ -45,3 +45,54 @@ Print Assumptions Base_horner_peval.
 Theorem Base_canonical_form : forall p : seq Z, polyseq (Poly p) = pnorm p.
 Proof. exact: polyseq_Poly_pnorm. Qed.
 Print Assumptions Base_canonical_form.
+
+(* ---- the fuelled loops of the reference algebraic numbers: WHEN they answer, the answer is the mathematical one
+   (running out of fuel is reported as FUEL by the drivers and never compared) *)
+
+(* comparison of two numbers by simultaneous refinement *)
+Theorem Base_rn_cmp_loop : forall (R : rcfType) (fuel : nat) (x y : rnum) (a b : R) (s : Z),
+  rn_denotes x a -> rn_denotes y b -> rn_cmp_loop fuel x y = Some s -> zr s = Num.sg (a - b).
+Proof. exact: rn_cmp_loop_spec. Qed.
+Print Assumptions Base_rn_cmp_loop.
+
+(* the full comparison (equality test first): COND on the soundness of the equality test for two proper algebraic
+   numbers (gcd + Sturm count over an interval); FULL when one side is rational (next theorem) *)
+Theorem Base_rn_cmp_cond : forall (R : rcfType) (fuel : nat) (x y : rnum) (a b : R) (s : Z),
+  (rn_eqb x y = true -> a = b) ->
+  rn_denotes x a -> rn_denotes y b -> rn_cmp fuel x y = Some s -> zr s = Num.sg (a - b).
+Proof. exact: rn_cmp_spec_cond. Qed.
+Print Assumptions Base_rn_cmp_cond.
+
+Theorem Base_rn_eqb_sound_rational : forall (R : rcfType) (x y : rnum) (a b : R),
+  rn_denotes x a -> rn_denotes y b -> (if x is RQ _ then true else if y is RQ _ then true else false) ->
+  rn_eqb x y = true -> a = b.
+Proof. exact: rn_eqb_sound_rational. Qed.
+Print Assumptions Base_rn_eqb_sound_rational.
+
+(* refinement away from a rational keeps the number and ends with the rational outside the open interval *)
+Theorem Base_rn_refine_away : forall (R : rcfType) (fuel : nat) (x x' : rnum) (q : Z * Z) (v : R),
+  rn_denotes x v -> qpos q -> rn_refine_away fuel x q = Some x' ->
+  rn_denotes x' v /\ match x' with RQ _ => Logic.True | RA _ lo hi => @qr R q <= qr lo \/ @qr R hi <= qr q end.
+Proof. exact: rn_refine_away_spec. Qed.
+Print Assumptions Base_rn_refine_away.
+
+(* floor, ceiling, integrality *)
+Theorem Base_rn_floor : forall (R : rcfType) (fuel : nat) (x : rnum) (v : R) (z : Z),
+  rn_denotes x v -> rn_floor fuel x = Some z -> zr z <= v < zr z + 1.
+Proof. exact: rn_floor_spec. Qed.
+Print Assumptions Base_rn_floor.
+
+Theorem Base_rn_ceiling : forall (R : rcfType) (fuel : nat) (x : rnum) (v : R) (z : Z),
+  rn_denotes x v -> rn_ceiling fuel x = Some z -> zr z - 1 < v <= zr z.
+Proof. exact: rn_ceiling_spec. Qed.
+Print Assumptions Base_rn_ceiling.
+
+Theorem Base_rn_is_integer : forall (R : rcfType) (fuel : nat) (x : rnum) (v : R) (b : bool),
+  rn_denotes x v -> rn_is_integer fuel x = Some b -> b = true <-> exists z : Z, v = zr z.
+Proof. exact: rn_is_integer_spec. Qed.
+Print Assumptions Base_rn_is_integer.
+
+(* negation *)
+Theorem Base_rn_neg : forall (R : rcfType) (x : rnum) (v : R), rn_denotes x v -> rn_denotes (rn_neg x) (- v).
+Proof. exact: rn_neg_spec. Qed.
+Print Assumptions Base_rn_neg.
